@@ -178,6 +178,23 @@ def budgets(geo):
         yield ('samples', s)
 
 
+DEEP_N = 4
+
+
+def deep_budgets(geo):
+    """Long runs for small geometries: 5 and 7 epochs, and the update / sample budgets that end inside epoch 5 / 7."""
+    N, B, dl = geo[0], geo[1], geo[2]
+    upe = (N // B) if dl else ceil(N / B)   # updates per epoch (the harness' main indices encode the epoch: at most 8 epochs)
+    spe = upe * B if dl else N              # samples per epoch
+    if geo[3] is not None:                  # the epoch is cut to drop_last_batch_size samples
+        upe, spe = geo[3] // B, geo[3]
+    for e in (5, 7):
+        yield ('epochs', e)
+        if upe >= 1:
+            yield ('updates', (e - 1) * upe + 1)
+            yield ('samples', (e - 1) * spe + 1)
+
+
 INTERVALS = [
     (ene, enu, ens)
     for ene in (None, 1, 2) for enu in (None, 1, 2, 3) for ens in (None, 1, 3, 4, 5)
